@@ -177,6 +177,7 @@ func c26Gen(g *Gen) {
 			default:
 				auth = "ok:" + XS(Pick(r, listed))
 			}
+			vary := r.Chance(55)
 			burst := 1
 			if r.Chance(35) {
 				burst = eff + r.Range(-1, 2)
@@ -194,7 +195,16 @@ func c26Gen(g *Gen) {
 				if r.Chance(8) {
 					cl = Pick(r, []string{"-1", "0", "8192", "8193", "100000", "1"})
 				}
-				lines = append(lines, fmt.Sprintf("req %s %s %s %s", auth, cl, X(body), c26GenRes(r)))
+				line := fmt.Sprintf("req %s %s %s %s", auth, cl, X(body), c26GenRes(r))
+				if vary {
+					// same principal, another transport identity every time: fresh TCP connection
+					// (new remote port / address), forwarded-for chain, user agent
+					line += fmt.Sprintf(" t:%s:%s:%s",
+						XS(Pick(r, []string{fmt.Sprintf("192.0.2.1:%d", 1024+r.Intn(60000)), fmt.Sprintf("198.51.100.%d:%d", r.Intn(255), 1024+r.Intn(60000)), fmt.Sprintf("[2001:db8::%x]:%d", r.Intn(65535), 1024+r.Intn(60000)), ""})),
+						XS(Pick(r, []string{"", fmt.Sprintf("203.0.113.%d", r.Intn(255)), fmt.Sprintf("10.0.0.%d, 203.0.113.%d", r.Intn(255), r.Intn(255))})),
+						XS(Pick(r, []string{"", "proxy/" + c26Rand(r, 4, c26Alnum), "curl/8." + c26Rand(r, 1, "0123456789")})))
+				}
+				lines = append(lines, line)
 				if r.Chance(6) {
 					// another listed caller in the same window: budgets are per caller
 					lines = append(lines, fmt.Sprintf("req ok:%s auto %s %s", XS(Pick(r, listed)), X(c26GenBody(r, c26GenCred(r))), c26GenRes(r)))
